@@ -242,6 +242,7 @@ Definition server13 (O : Orc) (r : Run) : res Session :=
           | Some (Some sch, sg) =>
             _ <- guard (sch_in sch (r_valid r)) (alert illegal_parameter) ;;
             ctx <- vb13 O sch (r_prf r) tag_client (r_tr_cv r) ;;
+            _ <- opt_alert (cm_policy cm) ;;      (* _check_certchain_with_settings on the client chain (/repo 756abb1) *)
             _ <- dispatch13_srv sch (r_srv_scheme r) ;;
             guard (sig_ok O (cm_key cm) (Some sch) ctx sg) (alert decrypt_error)
           end
@@ -378,9 +379,22 @@ Definition server12 (O : Orc) (r : Run) : res Session :=
         s_client_chain := chain; s_srp_user := srp; s_dc := false; s_psk := None |}.
 
 (* ---- _handshakeWrapperAsync 4998-5022 with checker.Checker.__call__ (non-resumed) ----- *)
+(* since /repo 6da5459 the wrapper turns protocol exceptions raised directly by the handshake
+   code into alerts: TLSIllegalParameterException -> illegal_parameter, TLSDecryptionFailed ->
+   decrypt_error (TLSDecodeError -> decode_error does not occur in the modelled flows).
+   Before that commit they propagated as bare exceptions (the X_ codes). *)
+Definition map_exn {A} (m : res A) : res A :=
+  match m with
+  | Err (OtherExn d) =>
+    if d =? X_DecryptionFailed then alert decrypt_error
+    else if d =? X_IllegalParameter then alert illegal_parameter
+    else m
+  | _ => m
+  end.
+
 Definition wrapper (hs : res Session) (is_client : bool) (want : option (list Z))
                    (fp : list Z -> list Z) : res Session :=
-  s <- hs ;;
+  s <- map_exn hs ;;
   match want with
   | None => Ok s
   | Some w =>
